@@ -591,7 +591,8 @@ def load_modify_store(ctx, fns, rule="R-ATOM.lms"):
                 if l is not None:
                     locs, ss = fn.backslice([l], max_nodes=60)
                     for loc, kind, pl in ss:
-                        if kind == "call" and is_atomic_call(pl) and pl["f"].endswith("::load") and \
+                        # `swap` hands out the old value like a load does: detach-all, keep some, store the rest back
+                        if kind == "call" and is_atomic_call(pl) and (pl["f"].endswith("::load") or pl["f"].endswith("::swap")) and \
                                 recv_field(fn, pl["a"][0]) == fld:
                             is_lms = True
             mods.setdefault(fld, []).append((fn, b, op, held, is_lms, c["ln"]))
@@ -757,7 +758,7 @@ def push_relink(ctx, fn, rule="R-ABA.relink", fx=None):
 
 
 # ---------------------------------------------------------------- R-LOCKSPLIT
-def lock_split(ctx, fn, rule="R-LOCKSPLIT"):
+def lock_split(ctx, fn, rule="R-LOCKSPLIT", fx=None):
     """check-then-act across two critical sections of one lock: a value read under a guard of lock L decides a branch,
     the guard is released, and the branch re-acquires L to write. Two threads can both see the old value and both act
     (double initialisation). The read, the decision and the write have to sit under one guard."""
@@ -765,6 +766,19 @@ def lock_split(ctx, fn, rule="R-LOCKSPLIT"):
     byf = {}
     for b, fld, mode, g, line in sites:
         byf.setdefault(fld, []).append((b, mode, g, line))
+    # a crate-local `&self` helper that takes the lock, reads and returns a plain value (`self.stats()`) is a first
+    # critical section too: the value it returns was read under a guard that is gone when the caller looks at it
+    if fx is not None and byf:
+        for b, c in fn.calls():
+            if not (c.get("loc") and fx.has(c["f"]) and c["a"]) or "Guard" in fn.ty(c["d"][0]):
+                continue
+            a0 = op_local(c["a"][0])
+            if a0 is None or not (a0 == 1 or 1 in fn.backslice([a0], max_nodes=8)[0]):
+                continue
+            hf = Fn(fx.raw(c["f"]))
+            for hb, hfld, hmode, hg, hline in lock_sites(hf):
+                if hfld in byf:
+                    byf[hfld].append((b, "r", c["d"][0], c["ln"]))
     n = 0
     guards = None
     for fld, ss in byf.items():
